@@ -73,7 +73,7 @@ pub fn pick_root<R: Rng>(rng: &mut R, reg: &PortableRegistry) -> String {
 
 pub fn random_sdesc<R: Rng>(rng: &mut R, reg: &PortableRegistry, opts: &SettingsOpts) -> SDesc {
     let mut d = SDesc::default();
-    d.register_via = rng.gen_range(0..3);
+    d.register_via = rng.gen_range(0..5);
     d.via_builders = rng.gen_bool(0.5);
     d.root = pick_root(rng, reg);
     d.alloc = [None, Some("::alloc".to_string()), Some("::my::alloc_reexport".to_string()), Some("::std".to_string())]
